@@ -231,7 +231,7 @@ def c18_plan(tier, seed, known):
                  "map, proof values, verdicts, identities, hashes) under RAYON_NUM_THREADS in {1,2,4,16}, transcripts must be identical. (d) one evaluation = "
                  "one re-creation of an instance on a location whose lock the simulator holds until simulated time D (grid 0..1111 ms plus long values), the "
                  "retry loop's sleeps advancing the simulated clock"),
-        "real": ["rln::public::RLN shared by real caller threads", "lazily initialised ZKEY / POSEIDON globals", "rln::ffi read-only entry points", "sled + pmtree (reads; the contended open path with the real flock and the real WouldBlock recognition)", "rayon pools of arkworks and pmtree at sizes 1/2/4/16"],
+        "real": ["rln::public::RLN shared by real caller threads", "lazily initialised ZKEY / POSEIDON globals", "rln::ffi read-only entry points", "sled + pmtree (reads; the contended open path with the real flock and the real WouldBlock recognition)", "rayon pools of arkworks and pmtree at sizes 1/2/4/16 (thorough tier: also 3/5/8)"],
         "stub": ["caller-thread scheduling (baton: the simulator decides who runs at each yield point)", "the clock behind the open-retry back-off (simulated)", "the previous owner holding the storage lock (the simulator holds the flock itself)"],
         "assumptions": ["interleaving is controlled only at yield points: a race confined between two yield points is not seen (Miri was measured too slow for this code: ~15 min per schedule)",
                         "rayon's work stealing inside one call and sled's background threads are not controlled; nothing they decide is logged; pool size is controlled"],
